@@ -160,45 +160,6 @@ func parserLoopsRuleSSA(r *Run, rule string) {
 	}
 	st := pm.typ.Underlying().(*types.Struct)
 	curIdx, peekIdx := fieldIndex(st, pm.cur), fieldIndex(st, pm.peek)
-	// helpers that may be walked in line: bool-valued, no loop, and (transitively) no call that moves the cursor
-	var pure func(fn *ssa.Function, depth int) bool
-	pureMemo := map[*ssa.Function]bool{}
-	pure = func(fn *ssa.Function, depth int) bool {
-		if v, ok := pureMemo[fn]; ok {
-			return v
-		}
-		pureMemo[fn] = false
-		if fn.Pkg != pkg || len(fn.Blocks) == 0 || funcHasLoop(fn) || depth > 3 || fn == next || fn == expect {
-			return false
-		}
-		res := fn.Signature.Results()
-		if res.Len() != 1 || !isBasicKind(res.At(0).Type(), types.Bool) {
-			return false
-		}
-		for _, b := range fn.Blocks {
-			for _, ins := range b.Instrs {
-				c, ok := ins.(*ssa.Call)
-				if !ok {
-					continue
-				}
-				if _, isB := c.Call.Value.(*ssa.Builtin); isB {
-					continue
-				}
-				cal := c.Call.StaticCallee()
-				if cal == nil || !pure(cal, depth+1) {
-					return false
-				}
-			}
-		}
-		pureMemo[fn] = true
-		return true
-	}
-	var pureMu sync.Mutex // the walker calls the inline policy from several goroutines
-	inline := func(caller, callee *ssa.Function) bool {
-		pureMu.Lock()
-		defer pureMu.Unlock()
-		return callee != curIs && callee != peekIs && pure(callee, 0)
-	}
 	// the precedence lookups (for the Pratt loop): methods that look up a constant table without an EOF key
 	tables := constTablesOf(pkg)
 	precLookup := func(fn *ssa.Function) (isLookup, hasEOF bool) {
@@ -228,6 +189,48 @@ func parserLoopsRuleSSA(r *Run, rule string) {
 			}
 		}
 		return
+	}
+	// helpers that may be walked in line: no loop, and (transitively) no call that moves the cursor
+	var pure func(fn *ssa.Function, depth int) bool
+	pureMemo := map[*ssa.Function]bool{}
+	pure = func(fn *ssa.Function, depth int) bool {
+		if v, ok := pureMemo[fn]; ok {
+			return v
+		}
+		pureMemo[fn] = false
+		if fn.Pkg != pkg || len(fn.Blocks) == 0 || funcHasLoop(fn) || depth > 3 || fn == next || fn == expect {
+			return false
+		}
+		// (a lookup of the precedence table is kept as a call: the Pratt comparison is recognised by it)
+		if isL, _ := precLookup(fn); isL {
+			return false
+		}
+		for _, b := range fn.Blocks {
+			for _, ins := range b.Instrs {
+				c, ok := ins.(*ssa.Call)
+				if !ok {
+					continue
+				}
+				if _, isB := c.Call.Value.(*ssa.Builtin); isB {
+					continue
+				}
+				cal := c.Call.StaticCallee()
+				if isL, _ := precLookup(cal); isL {
+					continue // reads the precedence table: does not move the cursor
+				}
+				if cal == nil || !pure(cal, depth+1) {
+					return false
+				}
+			}
+		}
+		pureMemo[fn] = true
+		return true
+	}
+	var pureMu sync.Mutex // the walker calls the inline policy from several goroutines
+	inline := func(caller, callee *ssa.Function) bool {
+		pureMu.Lock()
+		defer pureMu.Unlock()
+		return callee != curIs && callee != peekIs && pure(callee, 0)
 	}
 	tokenTest := func(p *pwPath, cond ssa.Value) (tok string, ok bool) {
 		cond = p.resolve(cond)
@@ -271,6 +274,22 @@ func parserLoopsRuleSSA(r *Run, rule string) {
 		}
 		return constant.StringVal(k), bo.Op == token.EQL, true
 	}
+	// mustMove: the function advances the token cursor before anything else can happen (its entry block
+	// calls nextToken, or a function that does)
+	var mustMove func(g *ssa.Function, depth int) bool
+	mustMove = func(g *ssa.Function, depth int) bool {
+		if g == nil || g.Pkg != pkg || len(g.Blocks) == 0 || depth > 2 {
+			return false
+		}
+		for _, ins := range g.Blocks[0].Instrs {
+			if c, ok := ins.(*ssa.Call); ok {
+				if cal := c.Call.StaticCallee(); cal == next || mustMove(cal, depth+1) {
+					return true
+				}
+			}
+		}
+		return false
+	}
 	type verdict struct {
 		pos    token.Pos
 		cycles int
@@ -303,7 +322,7 @@ func parserLoopsRuleSSA(r *Run, rule string) {
 				v.cycles++
 				moved, stops, bounded := false, false, false
 				for i := mk.fromEvents; i < mk.nEvents && i < len(p.events); i++ {
-					if c, ok := p.events[i].(*ssa.Call); ok && c.Call.StaticCallee() == next {
+					if c, ok := p.events[i].(*ssa.Call); ok && (c.Call.StaticCallee() == next || mustMove(c.Call.StaticCallee(), 0)) {
 						moved = true
 					}
 				}
@@ -348,15 +367,30 @@ func parserLoopsRuleSSA(r *Run, rule string) {
 								v.how["a counter"] = true
 							}
 						}
-						if bo.Op == token.LSS || bo.Op == token.GTR {
-							for _, side := range []ssa.Value{bo.X, bo.Y} {
-								if c, ok := p.resolve(side).(*ssa.Call); ok {
-									if isL, hasEOF := precLookup(c.Call.StaticCallee()); isL && !hasEOF && d.truth {
-										stops = true
-										v.how["the strict precedence comparison (EOF has no level)"] = true
-									}
-								}
+						// level < lookup(peek) strictly: written as <, >, or as the failing >=, <=
+						strictLess := func(x, y ssa.Value) bool {
+							c, ok := p.resolve(y).(*ssa.Call)
+							if !ok {
+								return false
 							}
+							isL, hasEOF := precLookup(c.Call.StaticCallee())
+							_, otherIsLookup := p.resolve(x).(*ssa.Call)
+							return isL && !hasEOF && !otherIsLookup
+						}
+						okPratt := false
+						switch bo.Op {
+						case token.LSS:
+							okPratt = d.truth && strictLess(bo.X, bo.Y)
+						case token.GTR:
+							okPratt = d.truth && strictLess(bo.Y, bo.X)
+						case token.GEQ:
+							okPratt = !d.truth && strictLess(bo.X, bo.Y)
+						case token.LEQ:
+							okPratt = !d.truth && strictLess(bo.Y, bo.X)
+						}
+						if okPratt {
+							stops = true
+							v.how["the strict precedence comparison (EOF has no level)"] = true
 						}
 					}
 				}
